@@ -426,7 +426,7 @@ def _create_parsing_expression(tree):
             return ex.Str(value)
 
     if isinstance(tree, parser.RegexLiteral):
-        is_binary = tree.value.startswith('b')
+        is_binary = tree.value.startswith(('b', 'B'))
         ignore_case = tree.value.endswith(('i', 'I'))
         value = tree.value
 
